@@ -43,6 +43,7 @@ type c05gen struct {
 	usedArith  bool
 	usedFrac   bool
 	usedFlex   bool // flex or flex1 (not supported by x/image)
+	flex1Tie   bool // a flex1 with |dx| == |dy| was generated
 	onlyFrag   int  // 0 = any arithmetic fragment, k+1 = only fragment k of val
 	stored     [32]bool
 	opHist     map[string]int
@@ -734,29 +735,23 @@ func (g *c05gen) pathOp(name string) {
 			b[0], b[1], b[2], b[3] = sd(), sd(), sd(), sd()
 			dx := a[0] + a[2] + a[4] + b[0] + b[2]
 			dy := a[1] + a[3] + a[5] + b[1] + b[3]
-			// force one of the two orientations, avoiding the tie |dx| == |dy|
+			// TN5177: the flex is horizontal iff |dx| > |dy|; a tie (including
+			// dx = dy = 0) counts as vertical.  One flex1 in four is a tie.
+			if r.IntN(4) == 0 {
+				target := dy
+				if r.IntN(2) == 0 {
+					target = -dy
+				}
+				b[2] += target - dx
+				dx = target
+				g.flex1Tie = true
+			}
 			adx, ady := dx, dy
 			if adx < 0 {
 				adx = -adx
 			}
 			if ady < 0 {
 				ady = -ady
-			}
-			if adx == ady {
-				b[2] += 7 * fixOne
-				dx += 7 * fixOne
-				adx = dx
-				if adx < 0 {
-					adx = -adx
-				}
-				if adx == ady {
-					b[2] += 7 * fixOne
-					dx += 7 * fixOne
-					adx = dx
-					if adx < 0 {
-						adx = -adx
-					}
-				}
 			}
 			d6 := sd()
 			if adx > ady {
